@@ -245,29 +245,36 @@ def _bt(bt):
     return b"\x40" if bt is None else bytes([VT_BYTE[bt]])
 
 
-def _enc_ins(n, out):
+def _enc_ins(n, out, marks=None):
+    start = len(out)
+    _enc_ins0(n, out, marks)
+    if marks is not None:
+        marks.append((start, len(out), n))
+
+
+def _enc_ins0(n, out, marks):
     if isinstance(n, Blk):
         out.append(0x02 if n.kind == "block" else 0x03)
         out += _bt(n.bt)
         for k in n.body:
-            _enc_ins(k, out)
+            _enc_ins(k, out, marks)
         out.append(0x0B)
         return
     if isinstance(n, If):
         for k in n.cond:
-            _enc_ins(k, out)
+            _enc_ins(k, out, marks)
         out.append(0x04)
         out += _bt(n.bt)
         for k in n.then:
-            _enc_ins(k, out)
+            _enc_ins(k, out, marks)
         if n.els is not None:
             out.append(0x05)
             for k in n.els:
-                _enc_ins(k, out)
+                _enc_ins(k, out, marks)
         out.append(0x0B)
         return
     for k in n.kids:
-        _enc_ins(k, out)
+        _enc_ins(k, out, marks)
     op = n.op
     if op in NUMERIC_BY_NAME:
         b = NUMERIC_BY_NAME[op][0]
@@ -731,6 +738,43 @@ def wat(m, style="flat"):
 
 
 STYLES = ("flat", "folded", "inline")
+
+
+def node_label(n):
+    """Short vocabulary name of an instruction node (operator, block kind + block type)."""
+    if isinstance(n, Blk):
+        return "%s/%s" % (n.kind, n.bt or "void")
+    if isinstance(n, If):
+        return "%s/%s" % ("if-else" if n.els is not None else "if", n.bt or "void")
+    return n.op
+
+
+def locate(m, fidx, offset):
+    """Instruction node of defined function fidx whose encoding contains byte `offset` of the function body
+    (body = locals vector + expression), innermost first.  Returns None for the locals part / final end."""
+    f = m.funcs[fidx]
+    runs = []
+    for vt in f.locals:
+        if runs and runs[-1][1] == vt:
+            runs[-1][0] += 1
+        else:
+            runs.append([1, vt])
+    pre = len(_vec([uleb(c) + bytes([VT_BYTE[vt]]) for c, vt in runs]))
+    if offset < pre:
+        return None
+    out, marks = bytearray(), []
+    for n in f.body:
+        _enc_ins(n, out, marks)
+    off = offset - pre
+    best = None
+    for a, b, n in marks:
+        if a <= off < b and (best is None or b - a < best[1] - best[0]):
+            best = (a, b, n)
+    if best is None:
+        return None
+    n = best[2]
+    # the operand bytes of a plain instruction belong to its kids; if the offset is in a kid, that kid was chosen (smaller range)
+    return n
 
 
 def for_style(m, style):
